@@ -130,8 +130,8 @@ P = {
     ),
     "C17": (
         "model_checking",
-        "explicit-state BFS over the real RRSDatagramProtocol (single handler, two handlers wired back to back with all delivery orders, and the handler with its periodic_maintenance() coroutine as a stock asyncio.Task on a virtual event loop whose ready queue, timer heap and clock the explorer owns: all schedules of datagrams, loop callbacks and timer expiries to a depth) + complete enumeration of all truncations / single-bit corruptions at depth 1",
-        "All datagram sequences over a 22-class alphabet to depth 5 (quick) / 8 (thorough) from 6 initial states (sequence counter near wrap-around, connected or not) against a reference model; closed two-handler system with <= 2 / 3 injected datagrams and every delivery order, which must always go quiet; all orders of 14 datagram / endpoint events, single loop callbacks, timer expiries and two long silences (70 s / 400 s of virtual time) to depth 5 (7) with the maintenance task running; every prefix truncation and single-bit flip of every alphabet datagram in 4 reachable states.",
+        "explicit-state BFS over the real RRSDatagramProtocol (single handler, two handlers wired back to back with all delivery orders, and the handler with its periodic_maintenance() coroutine as a stock asyncio.Task on a virtual event loop whose ready queue, timer heap and clock the explorer owns: all schedules of datagrams, loop callbacks and timer expiries to a depth; the same for two handlers with both maintenance tasks on one loop) + a TLA+ model of the acknowledgement discipline enumerated by TLC with every model transition replayed against two real handlers + complete enumeration of all truncations / single-bit corruptions at depth 1",
+        "All datagram sequences over a 22-class alphabet to depth 5 (quick) / 8 (thorough) from 6 initial states (sequence counter near wrap-around, connected or not) against a reference model; closed two-handler system with <= 2 / 3 injected datagrams and every delivery order, which must always go quiet; all orders of 14 datagram / endpoint events, single loop callbacks, timer expiries and two long silences (70 s / 400 s of virtual time) to depth 5 (7) with the maintenance task running, and to depth 10 (14) for the closed two-handler system with both tasks; models/Hstrp.tla: 630 (4 791) model states, each of the 1 221 (14 136) transitions replayed on fresh handlers; every prefix truncation and single-bit flip of every alphabet datagram in 4 reachable states.",
         "Bound: depth, alphabet, injection budget. Trusted: harness HSTRP/HDAP writer+parser, reference model of the statement, constant clock.",
         "DESIGN.md §3 C17",
     ),
